@@ -13,6 +13,9 @@ Inductive tree := Leaf | Node (l : tree) (x : gobytes) (r : tree).
 Fixpoint inorder (t : tree) : list gobytes :=
   match t with Leaf => [] | Node l x r => inorder l ++ x :: inorder r end.
 
+(* the elements as strings, in order *)
+Definition tkeys (t : tree) : list str := map gb_str (inorder t).
+
 (* type treeCursor struct { stack []*llrb.Node; current *llrb.Node } ; head of [t_stack] = top *)
 Record tcur := mkT { t_stack : list tree; t_cur : tree }.
 
